@@ -340,6 +340,9 @@ def job_histories(asc, ext, first_op, maxlen):
                     fr.data = (np.arange(T)[:, None] * 64.0 + np.arange(Fc)[None, :] + 1.0)        # identity-coded payload, exact in float32
                     try:
                         fr = apply_history(stg, fr, ops, ext, tmp, f'h{n}')
+                        # another synthetic frame of the session, with its own name and band, gets its Waterfall now
+                        decoy = stg.Frame(fchans=Fc + 2, tchans=T, df=df * 2, dt=dt, fch1=fch1 / 2, ascending=not asc, t_start=1.6e9, source_name='OTHER', seed=1)
+                        decoy.get_waterfall()
                         probs = check_roundtrip(stg, fr, ext, tmp, f'h{n}')
                     except BaseException as e:
                         probs = [f"raised {type(e).__name__}: {e}"]
@@ -600,6 +603,8 @@ def replay_history(p):
                 ops = [o for o in ops if o in OPS]
                 try:
                     fr = apply_history(stg, fr, ops, ext, tmp, 'r')
+                    decoy = stg.Frame(fchans=Fc + 2, tchans=T, df=df * 2, dt=dt, fch1=fch1 / 2, ascending=not p['asc'], t_start=1.6e9, source_name='OTHER', seed=1)
+                    decoy.get_waterfall()
                     probs = check_roundtrip(stg, fr, ext, tmp, 'r')
                 except Exception as e:
                     probs = [f"raised {type(e).__name__}: {e}"]
